@@ -21,11 +21,11 @@ from pylife.stress.rainflow.general import find_turns
 NAME = "stream"
 
 PROPS = {
-    "C01": {"quick": {"runs": 60000, "budget_s": 75, "batch": 200},
+    "C01": {"quick": {"runs": 60000, "budget_s": 55, "batch": 200},
             "thorough": {"runs": 600000, "budget_s": 1100, "batch": 250, "det_pool": 200, "det_fresh": 40}},
-    "C02": {"quick": {"runs": 60000, "budget_s": 75, "batch": 200},
+    "C02": {"quick": {"runs": 60000, "budget_s": 55, "batch": 200},
             "thorough": {"runs": 700000, "budget_s": 1100, "batch": 250, "det_pool": 200, "det_fresh": 40}},
-    "C03": {"quick": {"runs": 120000, "budget_s": 75, "batch": 400},
+    "C03": {"quick": {"runs": 120000, "budget_s": 55, "batch": 400},
             "thorough": {"runs": 600000, "budget_s": 1100, "batch": 250, "det_pool": 200, "det_fresh": 40}},
 }
 
